@@ -136,6 +136,9 @@ def bitmap_templates():
     t.append([1001, 1002, 12001, 11003, 224000, 101002, 31031, 8023, 101000, 31001, 224255])
     # associated field on the referenced element (204 closed before the operator)
     t.append([204004, 31021, 12001, 11003, 204000, 224000, 101002, 31031, 8023, 101000, 31001, 224255])
+    # a bitmap defined INSIDE a replication, once per repetition
+    t.append([106000, 31001, 12101, 222000, 101001, 31031, 33007, 235000])
+    t.append([105002, 12001, 223000, 101001, 31031, 223255, 235000])
     # three chained operators sharing one bitmap
     t.append([12001, 13011, 222000, 236000, 101002, 31031, 101000, 31001, 33007,
               224000, 237000, 8023, 101000, 31001, 224255, 225000, 237000, 8024, 101000, 31001, 225255])
